@@ -57,7 +57,7 @@ def staged_run(ctx, fn, units, deadline, slice_size=None):
 
 def time_scale():
     """VERIF_TIME_SCALE=<float> stretches the wall-clock caps of the batch checks (for a heavily loaded machine;
-    default 1: quick stages stop being dispatched after ~100 s, thorough after ~13 min)."""
+    default 1: 15 min quick / 60 min thorough)."""
     try:
         return max(0.1, float(os.environ.get('VERIF_TIME_SCALE', '1') or 1))
     except ValueError:
@@ -65,9 +65,10 @@ def time_scale():
 
 
 def stage_deadline(ctx):
-    """Wall-clock point (seconds since the start of the check) after which no further work is dispatched:
-    105 s (quick) / 800 s (thorough) from the start, but never less than 40 s after the set-up phase."""
-    return max((105 if ctx.quick else 800) * time_scale(), ctx.elapsed() + 40)
+    """Safety net only: the stage lists are sized by CPU cost for an idle 16-core machine (quick: well below 2 min of
+    wall time).  No further work is dispatched 15 min (quick) / 60 min (thorough) after the start of the check; a run
+    that hits this reports the incomplete stage and exhaustive=false."""
+    return max((900 if ctx.quick else 3600) * time_scale(), ctx.elapsed() + 60)
 
 
 def attr_key(case):
